@@ -88,7 +88,7 @@ func c11Prop(st *CaseStats, fam int) func(t *rapid.T) {
 		sc := GenScenario(t)
 		cfg := CaseCfg{Family: fam, MaxDocs: 6, MaxIn: 3, HoldAny: true}
 		depth := rapid.SampledFrom([]int{0, 0, 1, 1, 2}).Draw(t, "depth")
-		if fam != FamSmall {
+		if fam == FamBlocks || fam == FamWide {
 			cfg.MaxIn = 2
 			depth = rapid.SampledFrom([]int{0, 1}).Draw(t, "depth")
 		}
@@ -201,4 +201,10 @@ func TestC11Blocks(t *testing.T) {
 	st := NewStats("C11Blocks", c11Rule)
 	defer st.Flush()
 	rapid.Check(t, c11Prop(st, FamBlocks))
+}
+
+func TestC11Mid(t *testing.T) {
+	st := NewStats("C11Mid", c11Rule)
+	defer st.Flush()
+	rapid.Check(t, c11Prop(st, FamMid))
 }
